@@ -895,7 +895,10 @@ def flatten_el(el, include_hrefs, skip_tag=False):
     if el.tag == 'a' and el.get('href') and include_hrefs:
         yield (TokenType.href, el.get('href'))
     if not skip_tag:
-        yield (TokenType.end_tag, end_tag(el))
+        # Void elements have no end tag (and an HTML parser turns `</br>` into
+        # a second `<br>`); `start_tag()` keeps the whitespace after them.
+        if el.tag not in void_tags:
+            yield (TokenType.end_tag, end_tag(el))
         end_words = split_words(el.tail)
         for word in end_words:
             yield (TokenType.word, html_escape(word))
@@ -917,9 +920,13 @@ def start_tag(el):
     """
     The text representation of the start tag for a tag.
     """
-    return '<%s%s>' % (
+    if el.tag in void_tags and el.tail and start_whitespace_re.search(el.tail):
+        extra = ' '
+    else:
+        extra = ''
+    return '<%s%s>%s' % (
         el.tag, ''.join([' %s="%s"' % (name, html_escape(value, True))
-                         for name, value in el.attrib.items()]))
+                         for name, value in el.attrib.items()]), extra)
 
 def end_tag(el):
     """ The text representation of an end tag for a tag.  Includes
